@@ -4,6 +4,7 @@
 From Coq Require Import ZArith NArith List String.
 Import ListNotations.
 Require Import Verif.lib.PyLite Verif.lib.Regex Verif.lib.RegexProofs Verif.gen.FurlGen Verif.lib.Furl Verif.lib.FurlProofs.
+Require Import Verif.lib.Connector Verif.lib.ConnectorProofs.
 Local Open Scope Z_scope.
 
 (* "Parsing a FURL either yields (tub id, hints, name) ... or raises the documented bad-FURL error":
@@ -46,6 +47,12 @@ Theorem C20_sturdy_hash : forall a b, sref_eqb a b = true -> sref_key a = sref_k
 Proof. exact sturdy_hash. Qed.
 Print Assumptions C20_sturdy_hash.
 
+(* ... also for references that ARRIVE as copies: the attributes SturdyRef.setCopyableState takes from the peer's
+   state (translated) include every attribute identity depends on, and C20_sturdy_eq holds for all records *)
+Theorem C20_copy_carries_identity : forall f, In f sturdyref_distinguishers -> In f sturdyref_copied_fields.
+Proof. exact copy_carries_identity. Qed.
+Print Assumptions C20_copy_carries_identity.
+
 Theorem C20_tubref_eq : forall a b, tubref_eqb a b = true <-> sr_tub a = sr_tub b.
 Proof. exact tubref_eq. Qed.
 Print Assumptions C20_tubref_eq.
@@ -84,3 +91,22 @@ Theorem C20_furl_steps_bounded_partial : forall s,
    <= (N.of_nat (List.length s) + 1) * (furl_K * (N.of_nat (List.length s) + 1) + 1))%N.
 Proof. exact furl_steps_bounded. Qed.
 Print Assumptions C20_furl_steps_bounded_partial.
+
+(* "... so an untrusted FURL (for example one received as a gift) cannot stall ... the process": on a Tub whose peers never
+   answer, after ANY history of getReference calls (FURLs with or without a usable hint, for any tub ids) and passage of
+   time, every getReference is answered once the connect timeout has passed -- with the order of "store the connector" and
+   "connect()" that is translated from Tub.getBrokerForTubRef, and the translated CONNECTION_TIMEOUT *)
+Theorem C20_no_stall : forall evs,
+  waiters (cstep connector_stored_before_connect CONNECTION_TIMEOUT
+             (crun connector_stored_before_connect CONNECTION_TIMEOUT evs) (Advance CONNECTION_TIMEOUT)) = [].
+Proof. intros evs. apply (no_stall CONNECTION_TIMEOUT evs). discriminate. Qed.
+Print Assumptions C20_no_stall.
+
+(* ... and a FURL with a usable hint for a tub that has no running connector starts a connection attempt, whatever
+   FURLs for that tub were seen before *)
+Theorem C20_attempt_starts : forall evs t,
+  let s := crun connector_stored_before_connect CONNECTION_TIMEOUT evs in
+  ~ (exists dl, In (t, dl) (live s)) ->
+  In (next s) (started (cstep connector_stored_before_connect CONNECTION_TIMEOUT s (GetRef t true))).
+Proof. intros evs t s H. apply (attempt_starts CONNECTION_TIMEOUT evs t); [discriminate | exact H]. Qed.
+Print Assumptions C20_attempt_starts.
